@@ -407,7 +407,7 @@ fn fault_site(f: &Fault) -> usize {
 
 const TEXT_POKES: &[&[u8]] = &[
     b"\\", b"\\u", b"\\u{", b"\\u12", b"\\ud800", b"\\udc00", b"\\ud800\\u", b"\"", b"{", b"}", b"[", b"]", b",", b":", b"-", b".", b"e", b"E+", b"0",
-    b"\\udbff", b"\\uDBFF\\uDFFF", b"\\udbff\\udc00", b"\\ud83d\\ude00", b"9999999999999999999999", b"\\x0C", b"\\n", b" ", b"\n", b"\x00", b"\xff", b"\xc3", b"tru", b"nul", b"1e999", b"-0",
+    b"\\u{0041", b"\\u{12", b"\\u{0041}", b"\\x0", b"\\x", b"\\x0C", b"\\t", b"\\r", b"\\udbff", b"\\uDBFF\\uDFFF", b"\\udbff\\udc00", b"\\ud83d\\ude00", b"9999999999999999999999", b"\\x0C", b"\\n", b" ", b"\n", b"\x00", b"\xff", b"\xc3", b"tru", b"nul", b"1e999", b"-0",
 ];
 
 fn gen_text_fault(r: &mut Rng, n: usize) -> Fault {
@@ -769,7 +769,8 @@ impl Scenario for Corrupt {
             }
             _ => {
                 let cfg = doc_cfg(&mut r);
-                let doc = gen::gen_doc(&mut r, &cfg, 80);
+                // one prefix run in 2,000 stores a document with a payload at the 2^24-byte boundary of the length field
+                let doc = if r.chance(1, 2000) { gen::gen_huge_payload(&mut r) } else { gen::gen_doc(&mut r, &cfg, 80) };
                 let n = mval::encode(&doc).len();
                 Case::Prefix { doc, cut: r.idx(n) }
             }
